@@ -162,6 +162,8 @@ class C10(Prop):
     rule = ('one case = request A (start/stop/restart/reload/incr/decr/set/rm'
             '/quit/add, or - 15 % of the cases, on a daemon built from a real '
             'configuration file - reloadconfig after an edit of the file; '
+            'in 12 % a start that fills up an active respawn-off watcher '
+            'which lost workers; '
             'waiting; succeeding, failing synchronously, or failing '
             'asynchronously through hook exceptions / exec failures) and '
             'state-changing requests B, C ... delivered after a seeded number '
@@ -270,10 +272,30 @@ class C10(Prop):
         cfg = self.gen_cfg(rng, seed)
         nw = len(cfg['watchers'])
         ops = []
-        for _ in range(rng.choice([1, 2, 3, 4])):
+        topup = None
+        if rng.random() < 0.12:
+            # a start that only fills up an active watcher (respawn off,
+            # workers lost): it is an operation like any other while it
+            # spawns, warm-up pauses included
+            topup = rng.randrange(nw)
+            o = cfg['watchers'][topup]['opts']
+            o['respawn'] = False
+            o['numprocesses'] = rng.choice([3, 4])
+            o['warmup_delay'] = rng.choice([0.3, 1.7])
+            o.pop('singleton', None)
+            o.pop('max_age', None)
+            ops.extend([{'op': 'die', 'w': topup, 'j': 0, 'how': 'kill',
+                         'place': 'now'},
+                        {'op': 'die', 'w': topup, 'j': 1, 'how': 'kill',
+                         'place': 'now'},
+                        {'op': 'quiet', 'checks': 1}])
+        for it in range(rng.choice([1, 2, 3, 4])):
             a = gen.gen_request(rng, nw, rng.choices(self.A_KINDS,
                                                      self.A_W)[0],
                                 waiting=True)
+            if topup is not None and it == 0:
+                a = {'op': 'req', 'cmd': 'start', 'w': topup, 'props': {},
+                     'waiting': True, 'place': 'now'}
             if a['cmd'] == 'set' and rng.random() < 0.3:
                 a['props']['options'] = {'uid': 'no-such-user-xyz'}
             if a['cmd'] == 'add':
